@@ -6,7 +6,7 @@
     filters, generated crates with types x consts x args. *)
 From Coq Require Import Permutation.
 From DivanV Require Import Base.Res Model.Registry Model.Tree Model.Driver
-  Proofs.TreeBase Proofs.DriverExec Proofs.DriverC14 Proofs.TreeLeaves Proofs.Flat Proofs.Expand Proofs.DriverC17.
+  Proofs.TreeBase Proofs.DriverExec Proofs.DriverC14 Proofs.TreeLeaves Proofs.Flat Proofs.Expand Proofs.DriverC17 Proofs.TypeLabel.
 Local Open Scope N_scope.
 
 (** For every registry, filter, ignore flag, sort (any permutation of siblings
@@ -66,6 +66,32 @@ Theorem C17_same_argument_every_thread_count : forall tcs a id name path il arg,
   = match tcs with _ :: _ :: _ => map (fun _ => (id, arg)) tcs | _ => [(id, arg)] end.
 Proof. exact same_argument_every_thread_count. Qed.
 Print Assumptions C17_same_argument_every_thread_count.
+
+(** Type labels ([EntryType::display_name], repaired: F13).  For every type name:
+    the label and [std::any::type_name] agree once every [ident::] path qualifier
+    is deleted from both ("the type so named") ... *)
+Theorem C17_label_names_type : forall raw, unqualify (type_display raw) = unqualify raw.
+Proof. exact label_names_type. Qed.
+Print Assumptions C17_label_names_type.
+
+(** ... hence two instantiations of one function share a label only if their type
+    names agree up to qualifiers ([a::X] and [b::X] still share "X": the FIXME in
+    entry/generic.rs). *)
+Theorem C17_labels_distinguish : forall raw1 raw2,
+  type_display raw1 = type_display raw2 -> unqualify raw1 = unqualify raw2.
+Proof. exact labels_distinguish. Qed.
+Print Assumptions C17_labels_distinguish.
+
+(** The label function before the repair fails both: "&a::S" and "a::S" are both labelled "S". *)
+Theorem C17_old_label_refuted :
+  let r1 := [38; 97; 58; 58; 83] in
+  let r2 := [97; 58; 58; 83] in
+  type_display_old r1 = type_display_old r2 /\
+  unqualify r1 <> unqualify r2 /\
+  unqualify (type_display_old r1) <> unqualify r1 /\
+  type_display r1 = r1 /\ type_display r2 = [83].
+Proof. exact old_label_refuted. Qed.
+Print Assumptions C17_old_label_refuted.
 
 (** The argument list of a function is evaluated once per process (first use of
     its [BenchArgs] static) and every runner finds it initialised ... *)
